@@ -32,7 +32,7 @@ def cases(ctx):
     for i in range(ctx.n(2000, 8000)):
         npos = int(rng.integers(1, 15))
         nneg = int(rng.integers(1, 15))
-        kind = str(rng.choice(["perm", "gauss", "within_ties", "lattice", "pool5", "separated", "inverted"]))
+        kind = str(rng.choice(["perm", "gauss", "within_ties", "lattice", "pool5", "separated", "inverted", "ulp", "ulp_cross", "uint", "mixed_int_float", "float32"]))
         if kind == "perm":
             allv = rng.permutation(npos + nneg).astype(float)
             pos, neg = allv[:npos], allv[npos:]
@@ -41,8 +41,15 @@ def cases(ctx):
         elif kind == "within_ties":
             vals = rng.permutation(8).astype(float)
             pos, neg = rng.choice(vals[:4], npos), rng.choice(vals[4:], nneg)
-        elif kind in ("lattice", "pool5"):
+        elif kind in ("lattice", "pool5", "ulp", "uint", "mixed_int_float", "float32"):
             pos, neg, _ = gen.scores(rng, 1, 1, maxn=14, kinds=[kind])
+        elif kind == "ulp_cross":  # distinct values, neighbours one ulp apart, classes interleaved (no shared value)
+            c = float(rng.choice([1.0, 0.1, -2.5, 3.0, 1024.0]))
+            ladder = [c]
+            for _ in range(npos + nneg):
+                ladder.append(float(np.nextafter(ladder[-1], np.inf)))
+            lad = np.array(ladder)[rng.permutation(npos + nneg)]
+            pos, neg = lad[:npos], lad[npos:]
         else:
             allv = np.sort(rng.normal(0, 1, npos + nneg))
             pos, neg = (allv[nneg:], allv[:nneg]) if kind == "separated" else (allv[:npos], allv[npos:])
